@@ -207,4 +207,25 @@ example :
         rcases this with rfl | rfl | rfl <;> cases hx)
   exact h.1
 
+/-! ### which keys compare numerically -/
+
+/-- every arithmetic expression is a numeric key, whichever side its column is on (D76 fix) -/
+theorem arith_key_is_numeric (l r : Expr) (op : ArithOp) : keyKind (.arith l op r) = .numeric := rfl
+
+/-- a call of a numeric function is a numeric key whatever its argument — in particular DAY, MONTH, YEAR and
+    DAYOFWEEK of a date column are numbers, not dates (re-decided over the generated classification set on
+    every run; DAYOFWEEK was missing: D75 fix) -/
+theorem date_part_keys_are_numeric (m : Bool) (a : Expr) (rest : List Expr) :
+    keyKind (.func m .Day a rest) = .numeric ∧ keyKind (.func m .Month a rest) = .numeric ∧
+    keyKind (.func m .Year a rest) = .numeric ∧ keyKind (.func m .DayOfWeek a rest) = .numeric := by
+  have h1 : Function.isNumeric .Day = true := by decide
+  have h2 : Function.isNumeric .Month = true := by decide
+  have h3 : Function.isNumeric .Year = true := by decide
+  have h4 : Function.isNumeric .DayOfWeek = true := by decide
+  simp [keyKind, Expr.containsNumeric, h1, h2, h3, h4]
+
+/-- a numeric column is a numeric key, a date column a date key -/
+example : keyKind (.field false .Size) = .numeric ∧ keyKind (.field false .Modified) = .datetime ∧
+    keyKind (.field false .Name) = .text := by decide
+
 end Fsel.C05
